@@ -185,4 +185,207 @@ theorem runP_consistent (evs : List Ev) : ∀ (c : Nat) (stack : List (ANode × 
       | nil => exact ⟨rfl, rfl⟩
       | cons p rest => exact ⟨rfl, rfl, by simp [parOK], hinv⟩
 
+/-! ### frame numbers are pairwise distinct -/
+
+mutual
+/-- the numbers of all non-terminal nodes of an annotated tree, pre-order -/
+def uids : ANode → List Nat
+  | .term _ => []
+  | .node u _ _ ds => u :: uidsL ds
+def uidsL : List ANode → List Nat
+  | [] => []
+  | d :: ds => uids d ++ uidsL ds
+end
+
+theorem uidsL_append (xs ys : List ANode) : uidsL (xs ++ ys) = uidsL xs ++ uidsL ys := by
+  induction xs with
+  | nil => simp [uidsL]
+  | cons x xs ih => simp [uidsL, ih]
+
+theorem uids_aAdd (p d : ANode) (hn : p.isNode = true) : uids (aAdd p d) = uids p ++ uids d := by
+  cases p with
+  | term _ => simp [ANode.isNode] at hn
+  | node u par r ds => simp [aAdd, uids, uidsL_append, uidsL]
+
+def stackUids (st : List (ANode × Node)) : List Nat := st.flatMap (fun a => uids a.1)
+
+/-- all numbers on the stack are distinct and below the counter; every frame is a node -/
+def UidInv (c : Nat) (st : List (ANode × Node)) : Prop :=
+  (stackUids st).Nodup ∧ (∀ u ∈ stackUids st, u < c) ∧ ∀ a ∈ st, a.1.isNode = true
+
+theorem runP_uids_nodup (evs : List Ev) : ∀ (c : Nat) (stack : List (ANode × Node)) (t : ANode × Node),
+    UidInv c stack → runP evs c stack = .ok t → (uids t.1).Nodup := by
+  induction evs with
+  | nil => intro c stack t _ h; cases h
+  | cons ev evs ih =>
+    intro c stack t hinv h
+    obtain ⟨hnd, hlt, hnode⟩ := hinv
+    cases ev with
+    | done =>
+      cases stack with
+      | nil => cases h
+      | cons n rest =>
+        cases rest with
+        | nil =>
+          simp only [runP] at h
+          cases h
+          simpa [stackUids] using hnd
+        | cons p rest' =>
+          simp only [runP] at h
+          have hpn : p.1.isNode = true := hnode p (by simp)
+          have hperm : (stackUids ((aAdd p.1 n.1, addDtr p.2 n.2) :: rest')).Perm
+              (stackUids (n :: p :: rest')) := by
+            simp only [stackUids, List.flatMap_cons, uids_aAdd p.1 n.1 hpn]
+            rw [← List.append_assoc]
+            exact List.Perm.append_right _ List.perm_append_comm
+          refine ih c _ t ⟨hperm.nodup_iff.mpr hnd, ?_, ?_⟩ h
+          · intro u hu; exact hlt u (hperm.mem_iff.mp hu)
+          · intro a ha
+            simp only [List.mem_cons] at ha
+            rcases ha with ha | ha
+            · subst ha; simp only [aAdd_isNode]; exact hpn
+            · exact hnode a (by simp [ha])
+    | term form toks =>
+      cases stack with
+      | nil => cases h
+      | cons p rest =>
+        simp only [runP] at h
+        have hpn : p.1.isNode = true := hnode p (by simp)
+        have heq : stackUids ((aAdd p.1 (.term (some p.1.uid)),
+            addDtr p.2 (.term (unquoteBody form) (findToks toks))) :: rest) = stackUids (p :: rest) := by
+          simp [stackUids, uids_aAdd p.1 _ hpn, uids]
+        refine ih c _ t ⟨by rw [heq]; exact hnd, by rw [heq]; exact hlt, ?_⟩ h
+        intro a ha
+        simp only [List.mem_cons] at ha
+        rcases ha with ha | ha
+        · subst ha; simp only [aAdd_isNode]; exact hpn
+        · exact hnode a (by simp [ha])
+    | node id e sc st en =>
+      simp only [runP] at h
+      cases hm : mkNode id e sc st en with
+      | error err => simp [hm] at h
+      | ok n =>
+        simp only [hm] at h
+        refine ih (c + 1) _ t ⟨?_, ?_, ?_⟩ h
+        · simp only [stackUids, List.flatMap_cons, uids, uidsL, List.singleton_append, List.nodup_cons]
+          exact ⟨fun hc => Nat.lt_irrefl c (hlt c hc), hnd⟩
+        · intro u hu
+          simp only [stackUids, List.flatMap_cons, uids, uidsL, List.singleton_append, List.mem_cons] at hu
+          rcases hu with hu | hu
+          · omega
+          · exact Nat.lt_succ_of_lt (hlt u hu)
+        · intro a ha
+          simp only [List.mem_cons] at ha
+          rcases ha with ha | ha
+          · subst ha; rfl
+          · exact hnode a ha
+    | root tok =>
+      simp only [runP] at h
+      refine ih (c + 1) _ t ⟨?_, ?_, ?_⟩ h
+      · simp only [stackUids, List.flatMap_cons, uids, uidsL, List.singleton_append, List.nodup_cons]
+        exact ⟨fun hc => Nat.lt_irrefl c (hlt c hc), hnd⟩
+      · intro u hu
+        simp only [stackUids, List.flatMap_cons, uids, uidsL, List.singleton_append, List.mem_cons] at hu
+        rcases hu with hu | hu
+        · omega
+        · exact Nat.lt_succ_of_lt (hlt u hu)
+      · intro a ha
+        simp only [List.mem_cons] at ha
+        rcases ha with ha | ha
+        · subst ha; rfl
+        · exact hnode a ha
+
+/-! ### the annotation layer of `_from_dict(d, parent)` -/
+
+mutual
+/-- `_from_dict` with numbered nodes: the node is created with `parent=parent`, its daughters (or its
+merged terminal) with `parent=n`; `none` where `fromDictAux` raises -/
+def fromDictP : D → Nat → Option Nat → Option (ANode × Nat)
+  | .mk entity id _ _ _ _ _ form _ daughters, c, par =>
+    match entity with
+    | none => none
+    | some _ =>
+      match daughters with
+      | some ds =>
+        (match fromDictPL ds (c + 1) c with
+         | none => none
+         | some (as, c') => some (.node c par id.isNone as, c'))
+      | none =>
+        match form with
+        | some _ => some (.node c par id.isNone [.term (some c)], c + 1)
+        | none => none
+def fromDictPL : List D → Nat → Nat → Option (List ANode × Nat)
+  | [], c, _ => some ([], c)
+  | d :: ds, c, u =>
+    match fromDictP d c (some u) with
+    | none => none
+    | some (a, c') =>
+      match fromDictPL ds c' u with
+      | none => none
+      | some (as, c'') => some (a :: as, c'')
+end
+
+mutual
+theorem fromDictP_cons : (d : D) → (c : Nat) → (par : Option Nat) → (a : ANode) → (c' : Nat) →
+    fromDictP d c par = some (a, c') → Cons a = true ∧ (∀ u, par = some u → parOK u a = true)
+  | .mk entity id score start stop type head form tokens (some ds), c, par, a, c', h => by
+    cases entity with
+    | none => simp [fromDictP] at h
+    | some e =>
+      simp only [fromDictP] at h
+      cases hl : fromDictPL ds (c + 1) c with
+      | none => simp [hl] at h
+      | some r =>
+        obtain ⟨as, c2⟩ := r
+        simp only [hl, Option.some.injEq, Prod.mk.injEq] at h
+        obtain ⟨ha, _⟩ := h
+        subst ha
+        refine ⟨?_, ?_⟩
+        · simp only [Cons]; exact fromDictPL_cons ds (c + 1) c as c2 hl
+        · intro u hu; subst hu; simp [parOK]
+  | .mk entity id score start stop type head form tokens none, c, par, a, c', h => by
+    cases entity with
+    | none => simp [fromDictP] at h
+    | some e =>
+      cases form with
+      | none => simp [fromDictP] at h
+      | some f =>
+        simp only [fromDictP, Option.some.injEq, Prod.mk.injEq] at h
+        obtain ⟨ha, _⟩ := h
+        subst ha
+        refine ⟨by simp [Cons, ConsL, parOK], ?_⟩
+        intro u hu; subst hu; simp [parOK]
+theorem fromDictPL_cons : (ds : List D) → (c u : Nat) → (as : List ANode) → (c' : Nat) →
+    fromDictPL ds c u = some (as, c') → ConsL u as = true
+  | [], c, u, as, c', h => by
+    simp only [fromDictPL, Option.some.injEq, Prod.mk.injEq] at h
+    obtain ⟨ha, _⟩ := h
+    subst ha; rfl
+  | d :: ds', c, u, as, c', h => by
+    simp only [fromDictPL] at h
+    cases h1 : fromDictP d c (some u) with
+    | none => simp [h1] at h
+    | some r1 =>
+      obtain ⟨a, c1⟩ := r1
+      cases h2 : fromDictPL ds' c1 u with
+      | none => simp [h1, h2] at h
+      | some r2 =>
+        obtain ⟨as', c2⟩ := r2
+        simp only [h1, h2, Option.some.injEq, Prod.mk.injEq] at h
+        obtain ⟨ha, _⟩ := h
+        subst ha
+        obtain ⟨k1, k2⟩ := fromDictP_cons d c (some u) a c1 h1
+        simp [ConsL, k1, k2 u rfl, fromDictPL_cons ds' c1 u as' c2 h2]
+end
+
+/-! pre-order listing `(number or none for a terminal, recorded parent)` — what the driver emits -/
+mutual
+def flat : ANode → List (Option Nat × Option Nat)
+  | .term p => [(none, p)]
+  | .node u p _ ds => (some u, p) :: flatL ds
+def flatL : List ANode → List (Option Nat × Option Nat)
+  | [] => []
+  | d :: ds => flat d ++ flatL ds
+end
+
 end Verif.C16
